@@ -255,12 +255,133 @@ def shrink(art, line, clause):
     return " ".join(head + [hx(cur)])
 
 
+
+# ---------------------------------------------------------------- receive paths (owns-its-bytes)
+
+RX_OPTS = [4, 11, 11, 12, 15, 17, 2000, 2013, 300]
+
+
+def rx_msg(rng, mid):
+    opts = []
+    for oid in sorted(rng.sample(RX_OPTS, rng.randrange(0, 4))):
+        ln = {4: rng.randrange(1, 9), 12: rng.randrange(0, 3), 17: rng.randrange(0, 3)}.get(oid, rng.choice([0, 1, 3, 13, 20]))
+        opts.append((oid, G.rbytes(rng, ln)))
+    return {"typ": rng.randrange(2), "mid": mid, "code": rng.randrange(1, 5), "tok": G.rbytes(rng, rng.randrange(9)),
+            "opts": opts, "pay": G.rbytes(rng, rng.choice([0, 0, 1, 7, 40, 300]))}
+
+
+def gen_rx_lines(ctx):
+    """Connection-level cases: pipelined stream frames / datagrams through one reused buffer."""
+    rng = random.Random(ctx.seed * 104729 + 11)
+    n = 1200 if ctx.tier == "thorough" else 160
+    lines = []
+    for k in range(n):
+        if k % 2 == 0:
+            na = rng.choice([1, 1, 2, 3, 5, 8])
+            a = [G.encode_tcp(rx_msg(rng, 0)) for _ in range(na)]
+            b = []
+            while sum(map(len, b)) < sum(map(len, a)) + 16 or len(b) < 1:
+                b.append(G.encode_tcp(rx_msg(rng, 0)))
+            split = rng.choice([0, 0, 1, 2, 3, 5, 7, 16, rng.randrange(1, 64)])
+            lines.append("rxtcp %d %d %d %s" % (split, len(a), len(b), " ".join(hx(f) for f in a + b)))
+        else:
+            nd = rng.choice([2, 2, 3, 5, 9])
+            d = [G.encode_udp(rx_msg(rng, 1000 + 7 * k + i)) for i in range(nd)]
+            lines.append("rxudp %d %s" % (nd, " ".join(hx(x) for x in d)))
+    return lines
+
+
+def evaluate_rx(ctx, art, lines, tag="rx"):
+    impl = common.run_test_harness(ctx, art["rx"], "TestC02RX", lines, tag=tag)
+    if impl is None or len(impl) != len(lines):
+        return None, None, None
+    impl = [X.norm(o) for o in impl]
+    model = verd = None
+    if art.get("driver"):
+        model = X.par_pipe([art["driver"], "model"], lines, 4)
+        verd = X.par_pipe([art["driver"], "judge"], ["%s => %s" % (l, o) for l, o in zip(lines, impl)], 4)
+    return impl, model, verd
+
+
+def shrink_rx(ctx, art, line):
+    """Fewer frames while the judge still reports owns-its-bytes."""
+    f = line.split()
+    cands = []
+    if f[0] == "rxtcp":
+        na, nb = int(f[2]), int(f[3])
+        a, b = f[4:4 + na], f[4 + na:]
+        for aa in ([a[0]], a):
+            for bb in ([b[0]], b[:2], b):
+                for sp in ("0", f[1]):
+                    cands.append("rxtcp %s %d %d %s" % (sp, len(aa), len(bb), " ".join(aa + bb)))
+    else:
+        d = f[2:]
+        for dd in ([d[0]], d[:2], d):
+            cands.append("rxudp %d %s" % (len(dd), " ".join(dd)))
+    cands = list(dict.fromkeys(cands))
+    impl, _, verd = evaluate_rx(ctx, art, cands, tag="rxshrink")
+    if impl is None or verd is None:
+        return line
+    hit = [c for c, v in zip(cands, verd) if v == "violates owns-its-bytes"]
+    return min(hit, key=len) if hit else line
+
+
+def explore_rx(ctx, art):
+    if not art.get("rx"):
+        return
+    corpus = []
+    for p in sorted(glob.glob(os.path.join(common.VERIF, "corpus", PROP, "*.json"))):
+        corpus += [l for l in json.load(open(p)).get("input", []) if l.startswith("rx")]
+    lines = corpus + gen_rx_lines(ctx)
+    impl, model, verd = evaluate_rx(ctx, art, lines)
+    if impl is None:
+        ctx.broken.append(("correspondence", "C02 receive-path harness run failed", ""))
+        return
+    if model is None or verd is None:
+        ctx.broken.append(("model", "C02 driver run failed (receive paths)", ""))
+    hits = []
+    delivered = 0
+    for i, (l, o) in enumerate(zip(lines, impl)):
+        ctx.count("op-" + l.split()[0])
+        of = o.split()
+        if len(of) > 1 and of[0] == "rx" and of[1].isdigit():
+            delivered += int(of[1])
+        if o.startswith("panic") or o in ("bad-op", "conn-error"):
+            ctx.violations.append(common.Violation("no-crash", X.signature("no-crash", l, PROP), "%s -> %s" % (l[:200], o[:200]),
+                                                   {"input": [l], "observed": o}))
+            continue
+        if model is not None and model[i] != o and len([b for b in ctx.broken if b[0] == "correspondence"]) < 30:
+            ctx.broken.append(("correspondence", "C02 model vs implementation (receive path)",
+                               "%s: impl `%s` model `%s`" % (l[:300], o[:300], model[i][:300])))
+        if verd is not None:
+            ctx.count("verdict-" + verd[i].split()[0])
+            if verd[i].startswith("violates"):
+                hits.append((l, o))
+    ctx.cov["rx_messages_delivered"] = delivered
+    if hits:
+        ctx.count("violations-owns-its-bytes", len(hits))
+        hits.sort(key=lambda h: len(h[0]))
+        seen = set()
+        for l, o in hits[:3]:
+            small = shrink_rx(ctx, art, l)
+            if small in seen:
+                continue
+            seen.add(small)
+            si, _, _ = evaluate_rx(ctx, art, [small], tag="rxone")
+            ctx.violations.append(common.Violation(
+                "owns-its-bytes", X.signature("owns-its-bytes", small, PROP),
+                "%s: a message still queued / in its handler changed when later input was read: `%s`" % (small[:300], (si or [o])[0][:400]),
+                {"input": [small], "observed": (si or [o])[0], "judge": "violates owns-its-bytes",
+                 "cases_with_this_clause": len(hits)}))
+    return len(lines)
+
+
 def explore(ctx, art):
     thorough = ctx.tier == "thorough"
     par = 16 if thorough else 8
     corpus = []
     for p in sorted(glob.glob(os.path.join(common.VERIF, "corpus", PROP, "*.json"))):
-        corpus += json.load(open(p)).get("input", [])
+        corpus += [l for l in json.load(open(p)).get("input", []) if not l.startswith("rx")]   # rx lines: explore_rx
     if corpus:
         impl, model, verd = X.evaluate(art, corpus, par=2)
         if impl is None:
@@ -318,20 +439,37 @@ def explore(ctx, art):
         ctx.sample({"input": l[:300], "implementation": o[:300]})
 
 
-def run(ctx):
+def prepare(ctx):
     art = common.standard_prepare(ctx, MODULES, generated=GENERATED)
+    with common.Lock():
+        art["rx"] = common.build_test(ctx, "c02rx")
+    return art
+
+
+def run(ctx):
+    art = prepare(ctx)
     if art.get("hx"):
         explore(ctx, art)
+        nrx = explore_rx(ctx, art) or 0
+        ctx.cov["evaluations"] += nrx
+        ctx.cov["traces_validated_against_impl"] += nrx
+        ctx.cov["rule"] += (" Receive paths: %d connection cases (tcp/client.Conn over net.Pipe with pipelined, split frames while the "
+                            "first handler blocks and the rest wait in the queue, then later frames over the same stream buffer; "
+                            "udp/client.Conn.Process with one reused, overwritten datagram buffer): every delivered message must "
+                            "equal the reference parse of the bytes it was sent as." % nrx)
     return common.finish(ctx)
 
 
 def replay(ctx, rep):
-    art = common.standard_prepare(ctx, MODULES, generated=GENERATED)
+    art = prepare(ctx)
     lines = rep.get("input") or []
     if not lines:
         print("replay file names no failing input:", rep.get("no_longer_checks"))
         return common.finish(ctx) if not art["proofs_ok"] else 0
-    impl, model, verd = X.evaluate(art, lines)
+    if lines[0].startswith("rx"):
+        impl, model, verd = evaluate_rx(ctx, art, lines, tag="replay")
+    else:
+        impl, model, verd = X.evaluate(art, lines)
     bad = 0
     for l, o, mo, v in zip(lines, impl or [], model or [""] * len(lines), verd or [""] * len(lines)):
         print("%s\n  implementation: %s\n  model:          %s\n  judge:          %s" % (l, o, mo, v))
